@@ -161,7 +161,7 @@ class CFG:
         out = []
         fn = self.fn
 
-        def rec(i, pol):
+        def rec(i, pol, depth=0):
             i = fn.strip(i)
             n = fn.nodes[i]
             while n["k"] == "UnaryOperator" and n["op"] == "!":
@@ -170,10 +170,41 @@ class CFG:
                 pol = not pol
             out.append((i, pol))
             if n["k"] == "BinaryOperator" and ((n["op"] == "&&" and pol) or (n["op"] == "||" and not pol)):
-                rec(n["c"][0], pol)
-                rec(n["c"][1], pol)
+                rec(n["c"][0], pol, depth)
+                rec(n["c"][1], pol, depth)
+            elif n["k"] == "DeclRefExpr" and n.get("dk") == "local" and depth < 3:
+                e = self._bool_def(n["d"], n.get("n", ""))
+                if e is not None:
+                    rec(e, pol, depth + 1)     # testing a variable that just names a condition is testing that condition
         rec(f[0], f[1])
         return out
+
+    def _bool_def(self, d, name):
+        """the condition a local stands for: its only definition (initialiser or single assignment), when that cannot have
+        gone stale by the time the local is tested — the result variable of an inlined helper, or an expression over
+        never-reassigned locals and call results"""
+        cache = self.__dict__.setdefault("_booldef", {})
+        if d in cache:
+            return cache[d]
+        cache[d] = None
+        fn = self.fn
+        N = fn.nodes
+        defs = [(a, rhs, op) for a, rhs, op in fn.var_defs(d) if not (op == "decl" and rhs is None)]
+        if len(defs) != 1 or defs[0][1] is None or defs[0][2] not in ("=", "decl"):
+            return None
+        rhs = defs[0][1]
+        if fn.cv(rhs) is not None:
+            return None
+        if not name.startswith("__ret_"):
+            self._tracked()
+            for x in fn.walk(rhs):
+                m = N[x]
+                if m["k"] == "MemberExpr" or m["k"] == "ArraySubscriptExpr" or (m["k"] == "UnaryOperator" and m["op"] == "*"):
+                    return None
+                if m["k"] == "DeclRefExpr" and m.get("dk") in ("local", "parm") and (not self._single_def(m["d"]) or m["d"] in self._addr_taken):
+                    return None
+        cache[d] = rhs
+        return rhs
 
     # ---- correlated branches: a small amount of path sensitivity, sound by construction (it only removes paths
     # on which the same side-effect-free condition over unmodified locals would have to be both true and false)
@@ -264,6 +295,18 @@ class CFG:
                 lst = [(dd["d"], fn.cv(dd["init"])) for dd in n["decls"] if "init" in dd and fn.cv(dd["init"]) is not None and dd["d"] not in addr_taken and not dd.get("static")]
                 if lst:
                     self._cassign[n["i"]] = lst
+        # the right-hand side a plain local was last assigned on this path (result variables): element -> [(decl, rhs node)]
+        self._lastdef = {}
+        for n in N:
+            k = n["k"]
+            if k == "BinaryOperator" and n["op"] == "=":
+                c = fn.strip(n["c"][0])
+                if N[c]["k"] == "DeclRefExpr" and N[c].get("dk") in ("local", "parm") and N[c]["d"] not in addr_taken and fn.cv(n["c"][1]) is None:
+                    self._lastdef[n["i"]] = [(N[c]["d"], n["c"][1])]
+            elif k == "DeclStmt":
+                lst = [(dd["d"], dd["init"]) for dd in n["decls"] if "init" in dd and fn.cv(dd["init"]) is None and dd["d"] not in addr_taken and not dd.get("static")]
+                if lst:
+                    self._lastdef[n["i"]] = lst
         # plain copies `x = y` / `T x = y` between such locals carry the constant along
         self._copyassign = {}
         def plain(i):
@@ -413,7 +456,7 @@ class CFG:
                 continue
             copied = []
             if e is not None and e in self._copyassign and facts:
-                cur = {x[0][1]: x[1] for x in facts if isinstance(x[0], tuple)}
+                cur = {x[0][1]: x[1] for x in facts if isinstance(x[0], tuple) and x[0][0] == "const"}
                 copied = [(d_, cur[s_]) for d_, s_ in self._copyassign[e] if s_ in cur]
             if e is not None and facts and e in defs:
                 ds = defs[e]
@@ -422,9 +465,15 @@ class CFG:
                 facts = facts | {(("const", d_), c_, frozenset((d_,))) for d_, c_ in copied}
             if e is not None and e in self._cassign:
                 facts = facts | {(("const", d_), c_, frozenset((d_,))) for d_, c_ in self._cassign[e]}
-            consts = {x[0][1]: x[1] for x in facts if isinstance(x[0], tuple)} if facts else {}
+            if e is not None and e in self._lastdef:
+                facts = facts | {(("def", d_), r_, frozenset((d_,))) for d_, r_ in self._lastdef[e]}
+            consts = {x[0][1]: x[1] for x in facts if isinstance(x[0], tuple) and x[0][0] == "const"} if facts else {}
             if want_states:
-                states.setdefault(p, []).append(consts)
+                st_ = dict(consts)
+                for x in facts:
+                    if isinstance(x[0], tuple) and x[0][0] == "def":
+                        st_[("def", x[0][1])] = x[1]
+                states.setdefault(p, []).append(st_)
             for q, lab in self.edges.get(p, []):
                 if edge_ok is not None and not edge_ok(lab, p, q):
                     continue
